@@ -199,6 +199,13 @@ def build(env, spec):
     if spec.get('second_partition'):
         m.partition2.get_block(x0, 0)      # a second partition that only decomposes the starting point
     fx = F.value(x) if spec.get('value_metric', True) else None
+    if spec.get('extra_points'):
+        # many leaf points (a large Gram matrix) but few constraints: exercises size-dependent code paths cheaply
+        extra = [pep.set_initial_point() for _ in range(spec['extra_points'])]
+        ce = (extra[0] * extra[-1] + extra[len(extra) // 2] ** 2 - x0 * extra[3] <= 1)
+        pep.add_constraint(ce)
+        m.constraints.append(ce)
+        m.points['extra_last'] = extra[-1]
     # user constraints, written in all the ways the DSL allows
     e = (x - xs) ** 2
     m.exprs['dist'] = e
@@ -327,3 +334,22 @@ def safe_solve(env, pep, tag, **kw):
                                                                       'dimension_reduction_heuristic')),
             type(ex).__name__, str(ex)[:160], where, tb[-1].line), signature=sig)
         return None, sig
+
+
+class ConcreteParamsEnv:
+    """wraps an env so that inputs take the default concrete values (models whose coefficients must pass through C
+    libraries - e.g. scipy.sparse - or that are too large for symbolic coefficients; structure is still checked)"""
+
+    def __init__(self, env):
+        self._env = env
+        self.sym = env.sym
+        self._vals = default_values()[0]
+
+    def real(self, name, **kw):
+        return float(self._vals.get(name, 1.0))
+
+    def assume(self, *a, **kw):
+        pass
+
+    def __getattr__(self, n):
+        return getattr(self._env, n)
